@@ -18,6 +18,7 @@ def resolve(geo, st, env):
         if op == 'refine_layers':
             return [dict(op=op, layers=[geo.layerlist[i].name for i in st['layers']], factor=st['factor'])]
         return [R.resolve(geo, st)]
+    if op == 'check_fix': return [dict(op='check_fix')]
     if op in ('reduce', 'snap', 'snap_nearest'):
         d = dict(op=op, cols=[find_column(geo, v).name for v in st['cols']])
         if op == 'snap': d['min_thickness'] = float(num(st['min_thickness']))
